@@ -181,20 +181,49 @@ theorem unpaired_dof_formula (as bs : List ℝ) :
         ((svar as / as.length) ^ 2 / ((as.length : ℝ) + 1) +
           (svar bs / bs.length) ^ 2 / ((bs.length : ℝ) + 1)) - 2 := rfl
 
-/-- **The model at exact arithmetic panics for two constant samples.** With both variances zero
-    the effective degrees of freedom are `0/0 - 2`, which in Lean's real division (`x/0 = 0`) is
-    `-2`: below the population limit and not positive, so `t_value` unwraps
-    `StudentsT::new(0, 1, -2)` and panics. In IEEE arithmetic `0/0` is NaN, `NaN < 100000` is
-    false and the code takes the `z` branch instead (yielding the degenerate interval): this
-    difference between ℝ-with-`x/0 = 0` and IEEE lies outside the `RR` interpretation, which
-    does not model NaN. -/
+/-- **Two constant samples.** With both variances zero the documented expression is `0/0 - 2`
+    (`-2` in Lean's real division, NaN in IEEE arithmetic). The crate bounds the computed value
+    below by `min(na, nb) - 1` (`fix: the effective degrees of freedom … never fall below
+    min(n_a, n_b) - 1`), so the model at exact arithmetic requests the t quantile at
+    `min(na, nb) - 1 ≥ 1` degrees of freedom, the standard error is zero and the interval is the
+    degenerate one at the difference of the means: no panic. (In IEEE arithmetic the NaN passes
+    through the bound and the `z` branch yields the same degenerate interval: `C11.unpaired_total_XR`.) -/
 theorem unpaired_both_constant (crit : Crit Rex) (conf : Confidence Rex) (as bs : List ℝ)
-    (hna : 2 ≤ as.length) (hnb : 2 ≤ bs.length) (ha : svar as = 0) (hb : svar bs = 0) :
+    (hna : 2 ≤ as.length) (hnb : 2 ≤ bs.length) (h0 : 0 < conf.level.val)
+    (h1 : conf.level.val < 1) (ha : svar as = 0) (hb : svar bs = 0) :
     welchNu as bs = -2 ∧
-      Unpaired.ci crit conf (as.map inj : List Rex) (bs.map inj) = .panic "t_value" := by
+      clampedDof (welchA as) (welchA bs) as.length bs.length = min (as.length : ℝ) bs.length - 1 ∧
+      Unpaired.ci crit conf (as.map inj : List Rex) (bs.map inj) =
+        match conf with
+        | .twoSided _ => .ok (.twoSided (⟨smean as - smean bs⟩ : Rex) ⟨smean as - smean bs⟩)
+        | .upper _ => .ok (.upper (⟨smean as - smean bs⟩ : Rex))
+        | .lower _ => .ok (.lower (⟨smean as - smean bs⟩ : Rex)) := by
   have hnu : welchNu as bs = -2 := by
     simp [welchNu, welchA, ha, hb, welchDof_zero]
-  exact ⟨hnu, Unpaired.ci_rex_tpanic crit conf as bs hna hnb (by rw [hnu]; norm_num)⟩
+  have hA : welchA as = 0 := by simp [welchA, ha]
+  have hB : welchA bs = 0 := by simp [welchA, hb]
+  refine ⟨hnu, ?_, ?_⟩
+  · rw [hA, hB]
+    exact clampedDof_zero _ _ (by exact_mod_cast hna) (by exact_mod_cast hnb)
+  · rw [Unpaired.ci_rex_const crit conf as bs hna hnb (probOk_quantile conf h0 h1) ha hb]
+    have h := intervalOfKind_pm conf (smean as - smean bs) 0
+    simp only [sub_zero, add_zero, le_refl, if_true] at h
+    rw [h]
+    cases conf <;> rfl
+
+/-- **The degrees of freedom handed on are never below `min(na, nb) - 1 ≥ 1`**, whatever the
+    two samples of sizes `≥ 2` (constant or not): `t_value` is never asked for a non-positive
+    number of degrees of freedom. When not both samples are constant the bound is inactive and
+    the value is the documented expression `ν` (`dof_pos_samples`). -/
+theorem unpaired_dof_clamped (as bs : List ℝ) (hna : 2 ≤ as.length) (hnb : 2 ≤ bs.length) :
+    min (as.length : ℝ) bs.length - 1 ≤ clampedDof (welchA as) (welchA bs) as.length bs.length ∧
+    1 ≤ clampedDof (welchA as) (welchA bs) as.length bs.length ∧
+    ((0 < svar as ∨ 0 < svar bs) →
+      clampedDof (welchA as) (welchA bs) as.length bs.length = welchNu as bs) := by
+  have h := clampedDof_ge (welchA as) (welchA bs) as.length bs.length (by exact_mod_cast hna)
+    (by exact_mod_cast hnb)
+  refine ⟨h.1, h.2, fun hv => ?_⟩
+  exact max_eq_left (dof_pos_samples as bs hna hnb hv).1
 
 /-! ### 5. exchanging the samples -/
 
